@@ -84,6 +84,15 @@ Definition run_tls (c : list N) : list N :=
       let t := mkT (issuer_of sc) (nm =? 0) (negb (sk =? 0)) (ccert_of cc) (negb (ca =? 0)) in
       [b2n (reaches t); b2n (server_asks t)]
   | 2 :: cert :: ca :: r => irun (mkI (cert, negb (ca =? 0)) []) (parse_iev r)
+  | [4; which; sk] =>
+      (* roots / client CA without any certificate, or none given (then: the system store, which holds root A) *)
+      let skip := negb (sk =? 0) in
+      match which with
+      | 0 => [b2n (reaches (mkT OtherCA true skip CNone false))]     (* nothing validates against an empty store *)
+      | 1 => [b2n (reaches (mkT Trusted true skip CNone false))]     (* no --tls-ca: the system store *)
+      | 2 => [0]                                                      (* a client CA without certificates: no identity *)
+      | _ => [b2n (reaches (mkT Trusted true skip COther true))]     (* client cert under the system root, not under the client CA *)
+      end
   | [3; url; hn; sni; sk] =>
       let opt x := match x with 0 => None | _ => Some x end in
       [b2n (name_case_reaches (match url with 0 => 3 | _ => 1 end) (opt hn) (opt sni) (negb (sk =? 0)))]
